@@ -58,6 +58,7 @@ type scenario struct {
 	flipXor  byte
 	left     int64
 	baseMs   int64
+	bisync   bool // replay through the bidirectional snapshot path (marker + business in one MULTI/EXEC per entry)
 }
 
 func hexs(b []byte) string { return hex.EncodeToString(b) }
@@ -357,7 +358,7 @@ func runScenario(sc *scenario, data []byte) result {
 	srv.Unlock()
 
 	cfg := syncer.RedisOutputConfig{
-		InputName: "verif", CheckpointName: cpName, RunId: runID,
+		InputName: "verif", CheckpointName: cpName, RunId: runID, BisyncEnabled: sc.bisync, CanTransaction: sc.bisync,
 		Redis:                      config.RedisConfig{Addresses: []string{srv.Addr()}, Type: config.RedisTypeStandalone, Otype: config.RedisTypeStandalone, Version: "7.0.0"},
 		EnableResumeFromBreakPoint: true, TargetDb: sc.targetDb, TargetDbMap: sc.dbMap,
 		BatchCmdCount: 10, BatchTicker: time.Hour, BatchBufferSize: 1 << 30, KeepaliveTicker: time.Hour, UpdateCheckpointTicker: time.Hour,
@@ -468,6 +469,9 @@ finished:
 			if v.ExpireAt != 0 && v.ExpireAt <= now {
 				continue
 			}
+			if strings.HasPrefix(k, "redis-gunyu-bisync:") || strings.HasPrefix(k, cpName+":") {
+				continue // markers / records of the bidirectional path
+			}
 			if k == cpName {
 				if v.Type == "hash" {
 					if o, ok := v.Hash[runID+"_offset"]; ok {
@@ -536,13 +540,14 @@ func emitScenario(tr *hx.Trace, sc *scenario, res result) {
 	tr.Emit(map[string]interface{}{"ev": "FullSync", "id": sc.id, "kind": sc.kind, "restore": sc.restore, "bulk": sc.bulk, "parallel": sc.parallel,
 		"pipe": sc.pipe, "chunk": sc.chunk, "policy": sc.policy, "version": sc.version, "fault": sc.fault, "faultAt": sc.faultAt,
 		"left": sc.left, "expect": expect, "prior": prior, "final": res.final, "ret": res.ret, "cp": res.cp, "badpayload": res.badPayload,
-		"notrepro": res.notRepro, "errtext": res.errText})
+		"notrepro": res.notRepro, "errtext": res.errText, "bisync": sc.bisync})
 }
 
 func main() {
 	out := flag.String("out", "trace.ndjson", "")
 	statsPath := flag.String("stats", "stats.json", "")
 	seed := flag.Uint64("seed", 1, "")
+	bisyncPct := flag.Int("bisync-pct", 30, "percentage of scenarios replayed through the bidirectional snapshot path")
 	mode := flag.String("mode", "sync", "sync | policy | fault | loader")
 	n := flag.Int("n", 40, "scenarios")
 	shard := flag.Int("shard", 0, "")
@@ -584,6 +589,7 @@ func main() {
 		case 2:
 			sc.black = []int{1}
 		}
+		sc.bisync = *bisyncPct > 0 && r.Intn(100) < *bisyncPct
 		wd.Kick(fmt.Sprintf("%s scenario %d", *mode, id))
 		data, err := rdbgen.Build(sc.entries, sc.version, r.Bool())
 		if err != nil {
@@ -695,10 +701,14 @@ func main() {
 // loaderEnum feeds damaged copies of data to the real parser (rdb.ParseRdb) and records one summary event.
 func loaderEnum(tr *hx.Trace, sc *scenario, data []byte, stride int, r *hx.Rng, wd *hx.Watchdog) int {
 	config.RdbPipeSize = 1024
+	// parseOnce: limit is the time without any progress (bytes consumed, entries delivered) after which the
+	// parse counts as stuck; a parse that is merely slow on a loaded machine keeps making progress
 	parseOnce := func(d []byte, limit time.Duration) (entries int, sawErr bool, sawDone bool, timedOut bool) {
 		var rb atomic.Int64
 		ch := rdb.ParseRdb(bytes.NewReader(d), &rb, 64)
-		timeout := time.After(limit)
+		tick := time.NewTicker(limit / 4)
+		defer tick.Stop()
+		lastRb, lastEntries, idle := int64(-1), -1, 0
 		for {
 			select {
 			case e, ok := <-ch:
@@ -712,14 +722,23 @@ func loaderEnum(tr *hx.Trace, sc *scenario, data []byte, stride int, r *hx.Rng, 
 				} else {
 					entries++
 				}
-			case <-timeout:
-				timedOut = true
-				return
+			case <-tick.C:
+				if rb.Load() == lastRb && entries == lastEntries {
+					idle++
+				} else {
+					idle = 0
+				}
+				lastRb, lastEntries = rb.Load(), entries
+				if idle >= 4 {
+					timedOut = true
+					return
+				}
 			}
 		}
 	}
 	hangs := []map[string]interface{}{}
 	nparse := 0
+	what := map[string]interface{}{"kind": "intact"}
 	parse := func(d []byte) (entries int, sawErr bool, sawDone bool) {
 		nparse++
 		if nparse%500 == 0 {
@@ -730,9 +749,9 @@ func loaderEnum(tr *hx.Trace, sc *scenario, data []byte, stride int, r *hx.Rng, 
 		if to {
 			// a slow parse under memory pressure is not a hang: try again alone after a collection
 			debug.FreeOSMemory()
-			entries, sawErr, sawDone, to = parseOnce(d, 20*time.Second)
+			entries, sawErr, sawDone, to = parseOnce(d, 90*time.Second)
 			if to {
-				hangs = append(hangs, map[string]interface{}{"bytes": len(d)})
+				hangs = append(hangs, map[string]interface{}{"bytes": len(d), "what": what, "data": hexs(d)})
 				sawErr = true
 			}
 		}
@@ -743,6 +762,7 @@ func loaderEnum(tr *hx.Trace, sc *scenario, data []byte, stride int, r *hx.Rng, 
 	tried := 0
 	for cut := 0; cut < len(data); cut++ {
 		tried++
+		what = map[string]interface{}{"kind": "trunc", "at": cut}
 		_, se, sd := parse(data[:cut])
 		if !se {
 			silent = append(silent, map[string]interface{}{"kind": "trunc", "at": cut, "done": sd})
@@ -755,6 +775,7 @@ func loaderEnum(tr *hx.Trace, sc *scenario, data []byte, stride int, r *hx.Rng, 
 			tried++
 			d := append([]byte{}, data...)
 			d[pos] ^= byte(x)
+			what = map[string]interface{}{"kind": "flip", "at": pos, "xor": x}
 			_, se, sd := parse(d)
 			if !se {
 				silent = append(silent, map[string]interface{}{"kind": "flip", "at": pos, "xor": x, "done": sd})
